@@ -172,6 +172,9 @@ def run_case(case):
     vios = []
     r = P.declare(d)
     st, s = r.st, r.sym
+    # an integral that is valued later has to exist before the transcription (it needs a quadrature state)
+    _x = ca.vec(s["x"])
+    pre_int = st.integral(_x[0] * ca.vec(s["u"])[0] + st.t)
     nlp = NL.Nlp(r.ocp)
     sd = core.get_seed() if hasattr(core, "get_seed") else 0
     w = NL.generic(nlp.nx, 0, 0)
@@ -278,6 +281,7 @@ def run_case(case):
     # ingredients against independent references (spec values, labelled grids)
     if case["chunk"] == 0:
         vios += ingredients(d, st, s, nlp, fake, tags)
+        vios += placeholder_values(d, st, s, fake, sol, tags, pre_int)
     # dedup identical signatures within the case
     seen = set(); uniq = []
     for v in vios:
@@ -289,6 +293,42 @@ def run_case(case):
                 outcome=hashlib.sha1(b"".join(hashes)).hexdigest()[:12], nontrivial=True,
                 counts=dict(expressions=len(case["exprs"])),
                 sample=dict(cfg=_trans.compact(d), first_expr=case["exprs"][0], n_exprs=len(case["exprs"])))
+
+
+def placeholder_values(d, st, s, fake, sol, tags, pre_int):
+    """value(e) for e built from boundary evaluations and integrals: at_t0 / at_tf are the first / last control-grid
+    samples (time: t0, t0+T; a control at tf: the last interval's), and value of a combination is the combination of the values"""
+    import casadi as ca
+    vios = []
+    num = lambda e: np.array(fake.value(e), dtype=float).reshape(-1)
+    try:
+        x = ca.vec(s["x"]); x0, x1 = x[0], x[1]
+        u0 = ca.vec(s["u"])[0]
+        xs = np.atleast_2d(np.array(fake.value(st.sample(x, grid="control")[1]), dtype=float)); xs = xs if xs.shape[0] == 2 else xs.T
+        us = num(st.sample(u0, grid="control-")[1])
+        T = float(num(st.value(st.T))[0]); t0 = float(num(st.value(st.t0))[0])
+        parts = {"a": st.at_t0(x0), "b": st.at_tf(x0), "b1": st.at_tf(x1), "c": pre_int, "ut": st.at_tf(u0), "t0": st.at_t0(st.t), "tf": st.at_tf(st.t)}
+        val = {k: float(num(st.value(v))[0]) for k, v in parts.items()}
+        want = {"a": xs[0, 0], "b": xs[0, -1], "b1": xs[1, -1], "ut": us[-1], "t0": t0, "tf": t0 + T}
+        for k, w_ in want.items():
+            if not NL.close(val[k], w_, 1e-10):
+                vios.append(dict(sig="value:placeholder:%s" % k, tags=tags, detail="value of the boundary evaluation '%s' is %g, the sampled trajectory gives %g" % (k, val[k], w_)))
+        e = 2 * parts["a"] - parts["b"] * parts["b1"] + 0.5 * parts["c"] + s["pg"] * st.T + ca.sin(parts["ut"]) * parts["tf"]
+        pg = float(num(st.value(s["pg"]))[0])
+        comb = 2 * val["a"] - val["b"] * val["b1"] + 0.5 * val["c"] + pg * T + np.sin(val["ut"]) * val["tf"]
+        got = float(num(st.value(e))[0])
+        if not NL.close(got, comb, 1e-10):
+            vios.append(dict(sig="value:placeholder:combination", tags=tags, detail="value(2*at_t0(x0) - at_tf(x0)*at_tf(x1) + integral/2 + pg*T + sin(at_tf(u))*at_tf(t)) = %g, the same combination of the individual values = %g" % (got, comb)))
+        got2 = float(np.array(sol.value(e), dtype=float).reshape(-1)[0])
+        if not NL.close(got2, got, 1e-12):
+            vios.append(dict(sig="value:placeholder:sol.value", tags=tags, detail="sol.value = %g, value = %g" % (got2, got)))
+    except Exception as e_:
+        import sys
+        fr = core.rockit_frame(sys.exc_info()[2])
+        if fr is None and not isinstance(e_, (RuntimeError, AssertionError)):
+            raise
+        vios.append(dict(sig="exception:placeholder:%s" % (fr or type(e_).__name__), tags=tags, detail="%s: %s" % (type(e_).__name__, str(e_)[:200])))
+    return vios
 
 
 def ingredients(d, st, s, nlp, fake, tags):
@@ -378,6 +418,6 @@ def ingredients(d, st, s, nlp, fake, tags):
 
 def describe(tier):
     return dict(
-        rule="every expression AST up to depth %s over atoms {x (vector), x_i, u, t, per-interval parameter (control+), per-interval variable, algebraic, global parameter, global variable, T, t0} with unary {sin, square, neg, affine}, binary {mul, add, sub} and shape constructors {column, row, 2x2 matrix, vector x scalar} x 7 grid options (control, control-, integrator, integrator refine 1/2/3, integrator_roots) x 9-12 method configurations: sample(e) evaluated at a generic decision vector = e applied to the sampled ingredients and sampled time; value(e) likewise; sol.sample / sol.value driven through a solver-free solution object = the symbolic path, with the shape rule [i,r,c] and one time stamp per entry; sampled ingredients vs independent references (declared per-interval values, interval controls, collocation polynomial of z)" % ("3" if tier == "thorough" else "2"),
+        rule="every expression AST up to depth %s over atoms {x (vector), x_i, u, t, per-interval parameter (control+), per-interval variable, algebraic, global parameter, global variable, T, t0} with unary {sin, square, neg, affine}, binary {mul, add, sub} and shape constructors {column, row, 2x2 matrix, vector x scalar} x 7 grid options (control, control-, integrator, integrator refine 1/2/3, integrator_roots) x 9-12 method configurations: sample(e) evaluated at a generic decision vector = e applied to the sampled ingredients and sampled time; value(e) likewise; sol.sample / sol.value driven through a solver-free solution object = the symbolic path, with the shape rule [i,r,c] and one time stamp per entry; value of boundary evaluations (at_t0 / at_tf of states, a control, time), of an integral and of a nonlinear combination of them = the first / last samples and the combination of the individual values; sampled ingredients vs independent references (declared per-interval values, interval controls, collocation polynomial of z)" % ("3" if tier == "thorough" else "2"),
         bound="AST depth %d" % (3 if tier == "thorough" else 2),
         assumptions=["a solver-free solution object (FakeSol) stands for the solver's decision vector", "CasADi Function evaluation is trusted"])
